@@ -506,6 +506,61 @@ theorem refuse_occupied_interstitial (s : Sys K) (p : V3 K) (scale : Bool) (atol
     simp at hi
   · rfl
 
+/-- **selection by position, completely:** `pos` resolves to atom `i` exactly when atom `i` is within
+    the tolerance and no other atom is (absent and ambiguous sites are the two ways to fail). -/
+theorem resolve_pos_iff_unique (s : Sys K) (p : V3 K) (scale : Bool) (atol : K) (i : Nat) :
+    resolveSite s (some p) none scale atol = .ok i ↔
+      (∃ a, s.atoms[i]? = some a ∧ within s (toCart s scale p) atol a = true) ∧
+      ∀ j b, j ≠ i → s.atoms[j]? = some b → within s (toCart s scale p) atol b = false := by
+  constructor
+  · intro h
+    have hm : siteMatches s (toCart s scale p) atol = [i] := by
+      unfold resolveSite at h
+      simp only [] at h
+      split at h
+      · rename_i k hk
+        injection h with h
+        subst h
+        exact hk
+      · cases h
+    refine ⟨(mem_siteMatches _ _ _ i).mp (by rw [hm]; simp), ?_⟩
+    intro j b hne hb
+    cases hw : within s (toCart s scale p) atol b with
+    | false => rfl
+    | true =>
+      have hj : j ∈ siteMatches s (toCart s scale p) atol := (mem_siteMatches _ _ _ j).mpr ⟨b, hb, hw⟩
+      rw [hm] at hj
+      simp at hj
+      exact absurd hj hne
+  · rintro ⟨⟨a, ha, hw⟩, hu⟩
+    simp [resolveSite, site_unique s _ atol i a ha hw hu]
+
+/-- **interstitial, completely:** in a non-empty system the insertion is accepted exactly when no atom
+    is within the tolerance of the requested position. -/
+theorem interstitial_ok_iff_free (s : Sys K) (p : V3 K) (scale : Bool) (atol : K) (kw : Kw K) (hne : s.atoms ≠ []) :
+    (∃ s', interstitial s p scale atol kw = .ok s') ↔
+      ∀ (j : Nat) b, s.atoms[j]? = some b → within s (toCart s scale p) atol b = false := by
+  constructor
+  · rintro ⟨s', h⟩ j b hb
+    obtain ⟨hm, _⟩ := interstitial_spec s s' p scale atol kw h
+    cases hw : within s (toCart s scale p) atol b with
+    | false => rfl
+    | true =>
+      have hj : j ∈ siteMatches s (toCart s scale p) atol := (mem_siteMatches _ _ _ j).mpr ⟨b, hb, hw⟩
+      rw [hm] at hj
+      simp at hj
+  · intro h
+    have hm : siteMatches s (toCart s scale p) atol = [] := by
+      apply filter_range_eq_nil
+      intro j hj
+      have hb : s.atoms[j]? = some s.atoms[j] := List.getElem?_eq_getElem hj
+      simp [hb, h j _ hb]
+    have he : s.atoms.isEmpty = false := by
+      cases hl : s.atoms with
+      | nil => exact absurd hl hne
+      | cons a t => rfl
+    simp [interstitial, hm, interstitialAt, he]
+
 /-- substitution by the type the atom already has. -/
 theorem refuse_same_type (s : Sys K) (pos : Option (V3 K)) (ptd : Option Int) (scale : Bool) (atol : K)
     (kw : Kw K) (i : Nat) (a : Atom K) (hr : resolveSite s pos ptd scale atol = .ok i)
